@@ -47,14 +47,17 @@ type Universe struct {
 	SSA     map[string]*ssa.Package
 	Fset    *token.FileSet
 
-	repoFuncs []*ssa.Function
-	byName    map[string]*ssa.Function
-	callers   map[*ssa.Function][]ssa.CallInstruction
-	allFuncs  map[*ssa.Function]bool
-	closureOf map[*ssa.Function][]*ssa.MakeClosure
-	pathMemo  map[ssa.Value][]Path
-	effMemo   map[*ssa.Function]*Effects
-	effBusy   map[*ssa.Function]bool
+	repoFuncs  []*ssa.Function
+	byName     map[string]*ssa.Function
+	callers    map[*ssa.Function][]ssa.CallInstruction
+	allFuncs   map[*ssa.Function]bool
+	closureOf  map[*ssa.Function][]*ssa.MakeClosure
+	pathMemo   map[ssa.Value][]Path
+	effMemo    map[*ssa.Function]*Effects
+	effBusy    map[*ssa.Function]bool
+	heapStores map[*ssa.Alloc][]heapStore
+	heapSeen   map[string]bool
+	callBusy   map[*ssa.Call]bool
 }
 
 // LoadError describes a failure to obtain a complete, type-correct program.
@@ -102,16 +105,19 @@ func Load(root, dir, goos string, patterns ...string) (*Universe, error) {
 	}
 	u := &Universe{
 		Root: root, Dir: dir, GOOS: goos,
-		Initial:   initial,
-		Pkgs:      map[string]*packages.Package{},
-		SSA:       map[string]*ssa.Package{},
-		byName:    map[string]*ssa.Function{},
-		callers:   map[*ssa.Function][]ssa.CallInstruction{},
-		allFuncs:  map[*ssa.Function]bool{},
-		closureOf: map[*ssa.Function][]*ssa.MakeClosure{},
-		pathMemo:  map[ssa.Value][]Path{},
-		effMemo:   map[*ssa.Function]*Effects{},
-		effBusy:   map[*ssa.Function]bool{},
+		Initial:    initial,
+		Pkgs:       map[string]*packages.Package{},
+		SSA:        map[string]*ssa.Package{},
+		byName:     map[string]*ssa.Function{},
+		callers:    map[*ssa.Function][]ssa.CallInstruction{},
+		allFuncs:   map[*ssa.Function]bool{},
+		closureOf:  map[*ssa.Function][]*ssa.MakeClosure{},
+		pathMemo:   map[ssa.Value][]Path{},
+		effMemo:    map[*ssa.Function]*Effects{},
+		effBusy:    map[*ssa.Function]bool{},
+		heapStores: map[*ssa.Alloc][]heapStore{},
+		heapSeen:   map[string]bool{},
+		callBusy:   map[*ssa.Call]bool{},
 	}
 	var errs []string
 	packages.Visit(initial, nil, func(p *packages.Package) {
